@@ -69,10 +69,36 @@ def scenario(calls, close_before=False, via_eventloopthread=False, burst=1, hold
             loop.run_forever()
         finally:
             loop.close()
-    th = threading.Thread(target=owner_main, daemon=True)
-    th.start()
-    ready.wait(30)
-    owner_loop = holder["loop"]
+    caller_loop = asyncio.new_event_loop()
+    if via_eventloopthread:
+        # the owner's loop and thread are bellows' own EventLoopThread (start / force_stop), as uart.connect(use_thread=True) uses it
+        elt = EventLoopThread()
+        caller_loop.run_until_complete(elt.start())
+        owner_loop = elt.loop
+
+        async def _ident():
+            return threading.get_ident()
+        obj.owner_ident = asyncio.run_coroutine_threadsafe(_ident(), owner_loop).result(30)
+        owner_loop.call_soon_threadsafe(owner_loop.set_exception_handler, lambda l, ctx: None)
+
+        def stop_owner():
+            elt.force_stop()
+
+        def join_owner():
+            t_end = time.monotonic() + 5
+            while not owner_loop.is_closed() and time.monotonic() < t_end:
+                caller_loop.run_until_complete(asyncio.sleep(0.005))
+    else:
+        th = threading.Thread(target=owner_main, daemon=True)
+        th.start()
+        ready.wait(30)
+        owner_loop = holder["loop"]
+
+        def stop_owner():
+            owner_loop.call_soon_threadsafe(owner_loop.stop)
+
+        def join_owner():
+            th.join(30)
     proxy = ThreadsafeProxy(obj, owner_loop)
     blocked = [0]
 
@@ -134,8 +160,13 @@ def scenario(calls, close_before=False, via_eventloopthread=False, burst=1, hold
                 else:
                     pres[k + 1] = await lookup(c[0])
         if close_before:
-            owner_loop.call_soon_threadsafe(owner_loop.stop)
-            th.join(30)
+            stop_owner()
+            if via_eventloopthread:
+                t_end = time.monotonic() + 5
+                while not owner_loop.is_closed() and time.monotonic() < t_end:
+                    await asyncio.sleep(0.005)
+            else:
+                join_owner()
         idx = 0
         groups = [calls[k:k + burst] for k in range(0, len(calls), burst)]
         for g in groups:
@@ -144,7 +175,7 @@ def scenario(calls, close_before=False, via_eventloopthread=False, burst=1, hold
                 kind, src = c[0], c[1]
                 idx += 1
                 if src == "other":
-                    tasks.append(one(idx, kind, 1 if close_before else 0, caller_log, pres.get(idx)))
+                    tasks.append(one(idx, kind, 1 if owner_loop.is_closed() else 0, caller_log, pres.get(idx)))
                 else:
                     if close_before:
                         continue
@@ -168,18 +199,17 @@ def scenario(calls, close_before=False, via_eventloopthread=False, burst=1, hold
             elif tasks:
                 await asyncio.gather(*tasks)
         await asyncio.sleep(0.02)
-    caller_loop = asyncio.new_event_loop()
     try:
         caller_loop.run_until_complete(from_other())
+        if not close_before:
+            # let queued plain calls run, then stop the owner
+            done = threading.Event()
+            owner_loop.call_soon_threadsafe(lambda: owner_loop.call_later(0.01, done.set))
+            done.wait(30)
+            stop_owner()
+            join_owner()
     finally:
         caller_loop.close()
-    if not close_before:
-        # let queued plain calls run, then stop the owner
-        done = threading.Event()
-        owner_loop.call_soon_threadsafe(lambda: owner_loop.call_later(0.01, done.set))
-        done.wait(30)
-        owner_loop.call_soon_threadsafe(owner_loop.stop)
-        th.join(30)
     caller_log.append({"a": "end", "blocked": blocked[0]})
     return {"caller": caller_log, "owner": list(obj.log)}
 
@@ -224,13 +254,18 @@ def run(ctx: Ctx):
         for calls, closed, burst in scen:
             traces.append(scenario(calls, close_before=closed, burst=burst))
             metas.append({"calls": calls, "closed": closed, "burst": burst, "rep": r})
+        # the same with bellows' own EventLoopThread as owner (running, and stopped with force_stop so that its loop is closed)
+        for calls, closed, burst in scen:
+            if (len(calls) > 1 or closed or r == 0) and all(c[1] == "other" or not closed for c in calls):
+                traces.append(scenario(calls, close_before=closed, burst=burst, via_eventloopthread=True))
+                metas.append({"calls": calls, "closed": closed, "burst": burst, "rep": r, "elt": True})
         for calls, closed, burst in held:
             traces.append(scenario(calls, close_before=closed, burst=burst, hold=True))
             metas.append({"calls": calls, "closed": closed, "burst": burst, "rep": r, "hold": True})
     ctx.evaluations = len(traces)
     ctx.distinct_nontrivial = len({str((m["calls"], m["closed"], m["burst"])) for m in metas})
     ctx.rule = ("every method kind (coroutine returning / raising, plain returning nothing / a value / raising, non-callable attribute) x caller loop "
-                "{owner's own loop, another thread's loop} (also as bursts queued while the owner's loop is busy, with failing kinds in every position) x loop on which the proxy attribute was looked up {same, the other one} x owner-loop state {running, closed} as single calls, and bursts of 10 and 40/100 concurrent mixed calls; "
+                "{owner's own loop, another thread's loop} (also as bursts queued while the owner's loop is busy, with failing kinds in every position) x loop on which the proxy attribute was looked up {same, the other one} x owner-loop state {running, closed} x owner {a plain thread with its own loop, bellows' EventLoopThread started with start() and closed with force_stop()} as single calls, and bursts of 10 and 40/100 concurrent mixed calls; "
                 f"each scenario repeated {reps} times with real threads; distinct = distinct (calls, owner state, burst)")
     ctx.add_sample({"meta": metas[0], "trace": traces[0]})
 
@@ -245,6 +280,7 @@ def run(ctx: Ctx):
 
 def replay(ctx: Ctx, data):
     m = data["replay"]["meta"]
-    tr = scenario([tuple(c) for c in m["calls"]], close_before=m["closed"], burst=m["burst"], hold=bool(m.get("hold")))
+    tr = scenario([tuple(c) for c in m["calls"]], close_before=m["closed"], burst=m["burst"], hold=bool(m.get("hold")),
+                  via_eventloopthread=bool(m.get("elt")))
     ctx.validate_traces("Trace_ThreadProxy", [tr], metas=[m], label="thread proxy", length_of=length_of, dfs=True)
     ctx.add_sample(tr)
